@@ -186,7 +186,7 @@ def run(ctx):
            "samples": [texts[-1].decode(), sweeps[0] if sweeps else ""],
            "padding_parses": nparses, "sweeps": len(sweeps), "position_texts": len(ptexts), "correspondence_disagreements": ncorr,
            "trusted_base": TRUSTED_BASE + ["the dependency's two-half input buffer is kept away from its reload path by the lexer (buffer sized to the source); the model therefore has no buffer and the sweep (b) is what ties this to the code"]}
-    return ctx.finish(LEVEL, cov, ["NUL bytes excluded (reserved end-of-input sentinel)"])
+    return ctx.finish(LEVEL, cov, ["the property excludes the NUL byte; since the repair 027b8ad the reader no longer reserves it"])
 
 
 class random_const:
